@@ -153,7 +153,7 @@ Definition upd (s : bstate) (c p b k : N) (f : bool) (hi lo : N) : bstate :=
 Definition bstep (s : bstate) (o : op) (a : banswer) : option bstate :=
   match o with
   | Sent bytes app =>
-      if u32_max <? bbif s + bytes then None else
+      if negb (bytes =? 0) && (u32_max <? bbif s + bytes) then None else
       Some {| bmds := bmds s; bcwnd := bcwnd s; bprior := bprior s; bbif := bbif s + bytes;
               bkind := bkind s; bfilled := bfilled s; bhi := bhi s; blo := blo s;
               bdeliv := bdeliv s; blost := blost s; bapp := app_mark s bytes app;
